@@ -185,21 +185,43 @@ def strip_lean_comments(text):
 FORBIDDEN = re.compile(r"\bsorry\b|\badmit\b|^\s*axiom\s|\bnative_decide\b|\bbv_decide\b|\bimplemented_by\b|\bunsafe\s|maxHeartbeats\s+0\b|\bextern\b|\bcsimp\b", re.M)
 
 
-def scan_lean_sources():
-    """forbidden-construct scan over every Lean source of the project (comments stripped)"""
-    hits = []
-    for root, _dirs, files in os.walk(LEAN):
-        if ".lake" in root:
+def import_closure(modules):
+    """project files transitively imported by the given Lean modules (Batchie.* / Drivers.*)"""
+    seen, todo = set(), list(modules)
+    while todo:
+        m = todo.pop()
+        if m in seen:
             continue
-        for fn in files:
-            if not fn.endswith(".lean"):
+        path = os.path.join(LEAN, *m.split(".")) + ".lean"
+        if not os.path.exists(path):
+            continue
+        seen.add(m)
+        with open(path) as f:
+            for line in f:
+                mm = re.match(r"\s*(?:public\s+)?import\s+((?:Batchie|Drivers)[\w.]*)", line)
+                if mm:
+                    todo.append(mm.group(1))
+    return sorted(seen)
+
+
+def scan_lean_sources(modules=None):
+    """forbidden-construct scan over the Lean sources the property depends on (comments stripped);
+    with modules=None every source of the project is scanned"""
+    hits = []
+    if modules is not None:
+        paths = [os.path.join(LEAN, *m.split(".")) + ".lean" for m in import_closure(modules)]
+    else:
+        paths = []
+        for root, _dirs, files in os.walk(LEAN):
+            if ".lake" in root:
                 continue
-            p = os.path.join(root, fn)
-            with open(p) as f:
-                text = strip_lean_comments(f.read())
-            # drop string literals (the translator keeps Python text in strings)
-            text = re.sub(r'"(?:[^"\\]|\\.)*"', '""', text)
-            for m in FORBIDDEN.finditer(text):
-                line = text.count("\n", 0, m.start()) + 1
-                hits.append("%s:%d:%s" % (os.path.relpath(p, LEAN), line, m.group(0).strip()))
+            paths += [os.path.join(root, fn) for fn in files if fn.endswith(".lean")]
+    for p in paths:
+        with open(p) as f:
+            text = strip_lean_comments(f.read())
+        # drop string literals (the translator keeps Python text in strings)
+        text = re.sub(r'"(?:[^"\\]|\\.)*"', '""', text)
+        for m in FORBIDDEN.finditer(text):
+            line = text.count("\n", 0, m.start()) + 1
+            hits.append("%s:%d:%s" % (os.path.relpath(p, LEAN), line, m.group(0).strip()))
     return hits
